@@ -13,6 +13,9 @@ import (
 		"time"
 )
 
+const incrementalTimeoutMs = 2500
+const chunkSize = 24
+
 type SolverCfg struct {
 	TimeoutMs int
 	Dir       string // where to keep scripts of failed obligations
@@ -61,15 +64,21 @@ func valTerms(v *Val) []*Term {
 }
 
 // buildIncremental builds one incremental script for all obligations of a job.
-func buildIncremental(j *Job, timeoutMs int) (string, []*Obligation) {
-	sc := NewScript()
-	sc.Raw(preamble(timeoutMs))
+// pendingObls lists the obligations of a job that still need a solver.
+func pendingObls(j *Job) []*Obligation {
 	var todo []*Obligation
 	for _, o := range j.Obls {
 		if o.Status == "" {
 			todo = append(todo, o)
 		}
 	}
+	return todo
+}
+
+// buildIncremental builds one incremental script for a chunk of obligations (in generation order).
+func buildIncremental(j *Job, todo []*Obligation, timeoutMs int) string {
+	sc := NewScript()
+	sc.Raw(preamble(timeoutMs))
 	asserted := 0
 	ins := inputTerms(j)
 	for i, o := range todo {
@@ -119,7 +128,7 @@ func buildIncremental(j *Job, timeoutMs int) (string, []*Obligation) {
 		sc.Raw(fmt.Sprintf("(echo \"@@END %d\")", i))
 		sc.Raw("(pop 1)")
 	}
-	return sc.String(), todo
+	return sc.String()
 }
 
 // buildSingle builds a standalone script for one obligation.
@@ -169,11 +178,17 @@ func solvePrepared(j *Job, script string, todo []*Obligation, cfg SolverCfg) {
 		os.WriteFile(filepath.Join(cfg.Dir, sanitizeFile(j.Name)+".smt2"), []byte(script), 0o644)
 	}
 	start := time.Now()
-	total := time.Duration(cfg.TimeoutMs*len(todo)+20000) * time.Millisecond
+	total := time.Duration(incrementalTimeoutMs*len(todo)+20000) * time.Millisecond
 	ctx, cancel := context.WithTimeout(context.Background(), total)
-	out, _ := runSolver(ctx, "z3-new", []string{"-in"}, script)
+	out, _ := runSolver(ctx, "z3-new", []string{"-in", "smt.array.extensional=false"}, script)
 	cancel()
 	parseIncremental(out, todo, time.Since(start).Seconds())
+	for _, o := range todo {
+		// `sat` without extensionality is only a hint: the portfolio decides
+		if o.Status == "failed" && o.Kind != "pre-sat" {
+			o.Status, o.Model, o.Conj = "unknown", nil, nil
+		}
+	}
 }
 
 func sanitizeFile(s string) string {
@@ -200,7 +215,7 @@ func parseIncremental(out string, todo []*Obligation, elapsed float64) {
 		res = strings.Trim(res, "\"\n ")
 		model := strings.TrimSpace(out[mi+len(m) : ei])
 		o.Secs = per
-		o.Solver = "z3-5.1.0"
+		o.Solver = "z3-5.1.0-noext"
 		first := strings.SplitN(strings.TrimSpace(res), "\n", 2)[0]
 		switch first {
 		case "unsat":
@@ -277,15 +292,19 @@ func splitPair(p string) (string, string) {
 }
 
 type solverDef struct {
-	name string
-	bin  string
-	args []string
+	name     string
+	bin      string
+	args     []string
+	satOK    bool // a `sat` answer of this configuration is trusted (unsat always is)
 }
 
+// Array extensionality is switched off in one configuration: it only removes inferences, so `unsat`
+// stays sound, and it avoids a blow-up on the heap encodings; its `sat` answers are not used.
 var solvers = []solverDef{
-	{"z3-5.1.0", "z3-new", []string{"-in"}},
-	{"z3-4.8.12", "/usr/bin/z3", []string{"-in"}},
-	{"cvc5-1.0", "cvc5", []string{"--lang=smt2", "--produce-models"}},
+	{"z3-5.1.0-noext", "z3-new", []string{"-in", "smt.array.extensional=false"}, false},
+	{"z3-5.1.0", "z3-new", []string{"-in"}, true},
+	{"z3-4.8.12", "/usr/bin/z3", []string{"-in"}, true},
+	{"cvc5-1.0", "cvc5", []string{"--lang=smt2", "--produce-models"}, true},
 }
 
 // portfolioScript races the solvers on a single obligation.
@@ -327,6 +346,10 @@ func portfolioScript(j *Job, o *Obligation, script string, cfg SolverCfg) {
 			o.Secs = r.secs
 			cancel()
 			return
+		}
+		if first == "sat" && !satTrusted(r.solver) {
+			outs = append(outs, r.solver+": sat (not trusted without extensionality)")
+			continue
 		}
 		if first == "sat" {
 			o.Status = "failed"
@@ -430,4 +453,13 @@ func splitCases(j *Job) [][]*Term {
 		}
 	}
 	return cases
+}
+
+func satTrusted(name string) bool {
+	for _, s := range solvers {
+		if s.name == name {
+			return s.satOK
+		}
+	}
+	return false
 }
